@@ -23,8 +23,9 @@ TRUSTED_BASE = [
 ASSUMPTIONS = ["the nondeterministic traversal is tied to the model script by script in C17; here only its raise / no-raise outcome is compared"]
 TECHNIQUE = "Coq proofs on a graph model of the data that the traversal completes iff no chain of more than `limit` nested containers exists (cycles always have one), and on trees in both directions; differential runs incl. cyclic Python structures and both modes"
 LEVEL_TEXT = ("C18_completes, C18_raises, C18_cyclic_raises (graph model, every limit), C18_tree_complete / C18_tree_raises (evaluator model on JSON trees). Partial, stated as such: interpreter stack/time/memory "
-              "are not modelled (exercised with limits up to 2000 under an alarm); the nondeterministic mode's agreement is decided by enumeration, not by a theorem.")
-LEVEL_NOTE = "Partial for the runtime part and for nondeterministic agreement. Trusted: Coq kernel; graph model; correspondence; extraction and driver."
+              "are not modelled (exercised with limits up to 2000 under an alarm). C18_nd_agrees / C18_nd_outcomes: in nondeterministic mode, for every script of random choices, the traversal raises exactly when the "
+              "nesting exceeds the limit and otherwise returns (JSON trees; cyclic data in that mode is decided by enumeration).")
+LEVEL_NOTE = "Partial for the runtime part (and for cyclic data in nondeterministic mode). Trusted: Coq kernel; graph model; correspondence; extraction and driver."
 norm_reply = harness.norm_reply
 
 
